@@ -1015,6 +1015,7 @@ func (w *world) windDown() {
 	w.pump(time.Duration(w.sc.Config.DeadMs)*time.Millisecond + time.Second)
 	for _, r := range w.zombies {
 		r.VerifDeadcheck()
+		r.VerifQuiesce() // fetch loops end even if the RIB (wrongly) still holds destinations
 	}
 	w.pump(9 * time.Second)
 	for _, r := range w.zombies {
